@@ -173,6 +173,57 @@ characters)` (after the `fix:` commit: `i >= len(p.counts)`) -/
 def profileCountsAt (prof : List (Byte × List Nat)) (i : Int) : Option (List Nat) :=
   if i ≥ prof.length || i < 0 then none else (prof[i.toNat]?).map Prod.snd
 
+/-! ### unique gaps / mutations per sequence with a count profile -/
+
+/-- `CheckLength(length)`: every character of the profile has `length` counters -/
+def profileCheckLength (prof : List (Byte × List Nat)) (L : Int) : Bool := prof.all fun q => (q.2.length : Int) == L
+
+/-- `c, _ = countProfile.Count(r, site)` for `r < 130`: the count, and 0 when `Count` reports an error (unknown
+character, site outside the profile) -/
+def profileCount0 (prof : List (Byte × List Nat)) (r : Byte) (site : Nat) : Nat :=
+  ((profileCount prof r site).getD none).getD 0
+
+/-- the inner loop of `NumGapsUniquePerSequence(profile)` over the rows `j, j+1, …` of one column: with a profile
+there is no early exit; `isNew` = the profile has no gap at this site (`Count(GAP, i) == 0`, evaluated by the Go
+code at every gap); state `(nbGapsColumn, uniqueIndex, numnew)` -/
+def gapScanProf (isNew : Bool) : List Byte → Nat → Nat → Nat → List Nat → Nat × Nat × List Nat
+  | [], _, nb, idx, nn => (nb, idx, nn)
+  | r :: t, j, nb, idx, nn =>
+    if r == GAP then gapScanProf isNew t (j + 1) (nb + 1) j (if isNew then incrAt nn j else nn)
+    else gapScanProf isNew t (j + 1) nb idx nn
+
+/-- `NumGapsUniquePerSequence(profile)`: `(numuniques, numnew, numboth)`; `none` = the error of the length check -/
+def numGapsUniqueProf (rows : CRows) (L : Int) (prof : List (Byte × List Nat)) : Option (List Nat × List Nat × List Nat) :=
+  if !profileCheckLength prof L then none else
+  let zeros := rows.map fun _ => 0
+  some ((List.range L.toNat).foldl (fun (acc : List Nat × List Nat × List Nat) i =>
+    let isNew := profileCount0 prof GAP i == 0
+    let r := gapScanProf isNew (columnAt rows i) 0 0 0 acc.2.1
+    if r.1 == 1 then (incrAt acc.1 r.2.1, r.2.2, if isNew then incrAt acc.2.2 r.2.1 else acc.2.2)
+    else (acc.1, r.2.2, acc.2.2)) (zeros, zeros, zeros))
+
+/-- `NumMutationsUniquePerSequence(profile)`: `(numuniques, numnew, numboth)`.  Inner `none` = the error of the
+length check (tested first); outer `none` = index panic of the 130-entry slices (a byte ≥ 130 in a column).
+Per site, the first inner loop fills `occurences` / `indices` and increments `numnew[j]` for every character
+(neither wildcard nor gap) that the profile does not have there; the second visits `c = 0 … 129`. -/
+def numMutationsUniqueProf (rows : CRows) (L : Int) (alphabet : Nat) (prof : List (Byte × List Nat)) :
+    Option (Option (List Nat × List Nat × List Nat)) :=
+  let all : Byte := if alphabet == AMINOACIDS then 88 else if alphabet == NUCLEOTIDS then 78 else 46
+  if !profileCheckLength prof L then some none else
+  if (List.range L.toNat).any (fun i => (columnAt rows i).any fun r => r ≥ 130) then none else
+  let zeros := rows.map fun _ => 0
+  some (some ((List.range L.toNat).foldl (fun (acc : List Nat × List Nat × List Nat) i =>
+    let col := columnAt rows i
+    let nn := col.zipIdx.foldl (fun nn (p : Byte × Nat) =>
+      if p.1 != all && p.1 != GAP && profileCount0 prof p.1 i == 0 then incrAt nn p.2 else nn) acc.2.1
+    let ub := (List.range 130).foldl (fun (ub : List Nat × List Nat) c =>
+      let ch := UInt8.ofNat c
+      if col.count ch == 1 && ch != all && ch != GAP then
+        let ind := lastRowOf ch col 0 0
+        (incrAt ub.1 ind, if profileCount0 prof ch i == 0 then incrAt ub.2 ind else ub.2)
+      else ub) (acc.1, acc.2.2)
+    (ub.1, nn, ub.2)) (zeros, zeros, zeros)))
+
 /-- `Nt2IndexIUPAC` -/
 def nt2IndexIUPAC (c : Byte) : Option Byte := lookup (toUpper c) Gen.iupacToInt
 
